@@ -94,6 +94,8 @@ structure SegParams where
 
 /-- records filling about `pages` pages; the total length of each is chosen from the page geometry -/
 def genRecords (pre : Nat) (pages : Nat) (allowKf : Bool) : Gen (List WalRecord) := do
+  -- a third of the segments are dense: small records only (plus the page-geometry choices)
+  let dense ← Gen.prob 1 3
   let mut o := align8 pre
   let limit := pageStart pages          -- stream capacity of `pages` pages
   let mut out : Array WalRecord := #[]
@@ -104,15 +106,18 @@ def genRecords (pre : Nat) (pages : Nat) (allowKf : Bool) : Gen (List WalRecord)
       if left < 24 then stop := true
       else
         let room := roomOnPage o
-        let want ← match ← Gen.below 16 with
+        let pick ← Gen.below 16
+        -- dense segments keep the page-geometry choices for the last few hundred bytes of a page
+        let pick := if dense && room > 400 && pick < 6 then 11 else pick
+        let want ← match pick with
           | 0 | 1 => pure room                       -- end exactly at the page end
           | 2 => pure (room + capN)                  -- end exactly at the end of the next page
           | 3 => pure (if allowKf then room - 8 else room)   -- leave 8 bytes: next header straddles
           | 4 => pure (if allowKf then room - 16 else room)
           | 5 => pure (room - 24)                    -- leave exactly one header's worth
-          | 6 => Gen.range 8200 16000                -- spans two or three pages
-          | 7 => Gen.oneOf [16000, 15999, 24, 27, 281, 282, 285, 8168, 8152]
-          | 8 | 9 => Gen.range 200 3000
+          | 6 => if dense then Gen.range 24 120 else Gen.range 8200 16000   -- spans two or three pages
+          | 7 => if dense then Gen.oneOf [24, 27, 32, 40] else Gen.oneOf [16000, 15999, 24, 27, 281, 282, 285, 8168, 8152]
+          | 8 | 9 => if dense then Gen.range 24 120 else Gen.range 200 3000
           | 10 => pure 24
           | _ => Gen.range 24 200
         let want := min (min (max want 24) 16000) left
@@ -130,7 +135,7 @@ def genRecords (pre : Nat) (pages : Nat) (allowKf : Bool) : Gen (List WalRecord)
         else
           out := out.push r
           o := next
-          if ← Gen.prob 1 40 then stop := true
+          if ← Gen.prob 1 (if dense then 400 else 40) then stop := true
   return out.toList
 
 def genSegment (maxPages : Nat) (allowKf : Bool) : Gen WalSegment := do
